@@ -220,6 +220,31 @@ def fan_witnesses():
         "Branches": [{"StartAt": "A", "States": {"A": T("fa")}}, {"StartAt": "B", "States": {"B": T("fb")}}]}}},
         {"x": 1}, {"fa": [("err", "EA", "m"), ("ok",)], "fb": [("ok",), ("ok",)]}, {"fa": 5, "fb": 10},
         extra={"finding": "C06-F5", "stall_at": [10, 13], "errors": ["EA"]}))
+    # C06-F6: a Task / Wait pending in a fan-out nested (depth 2 and 3) in a sibling branch when the enclosing state fails and
+    # the failure is retried / caught (/ not handled: the execution ends, which has always cancelled everything)
+    def leaf(kind):
+        if kind == "task":
+            return {"StartAt": "X", "States": {"X": T("fx")}}
+        return {"StartAt": "X", "States": {"X": {"Type": "Wait", "Seconds": 2, "Next": "Y"}, "Y": {"Type": "Pass", "End": True}}}
+
+    def nest(depth, kind):
+        b = leaf(kind)
+        names = ["N", "Q"]
+        for d in range(depth - 1):
+            nm = names[depth - 2 - d]
+            b = {"StartAt": nm, "States": {nm: {"Type": "Parallel", "End": True, "Branches": [b]}}}
+        return b
+    handlers = (("retry", {"Retry": [{"ErrorEquals": ["EA"], "IntervalSeconds": 1, "MaxAttempts": 1}]}),
+                ("catch", {"Catch": [{"ErrorEquals": ["EA"], "Next": "R"}]}), ("none", {}))
+    for hn, handler in handlers:
+        for depth in (2, 3):
+            for kind in ("task", "wait"):
+                m = {"StartAt": "P", "States": {"P": dict({"Type": "Parallel", "Next": "Z", "Branches": [
+                    {"StartAt": "A", "States": {"A": T("fa")}}, nest(depth, kind)]}, **handler),
+                    "Z": {"Type": "Pass", "End": True}, "R": {"Type": "Pass", "Result": "recovered", "End": True}}}
+                out.append(S("nested-pending-%s-d%d-%s" % (hn, depth, kind), m, {"x": 1},
+                             {"fa": [("err", "EA", "m"), ("ok",)], "fx": [("ok",)]}, {"fa": 5, "fx": 400},
+                             extra={"finding": "C06-F6", "errors": ["EA"]}))
     return out
 
 
@@ -562,6 +587,10 @@ def run_property(chk, prop, laws, quick_gen=300, thorough_gen=4000, scns=None, n
             want_notes = "C11" in laws and speaks
             ab = None
             if tracer is not None:
+                # the direct law: no task / wait of a dead attempt survives the step in which its enclosing attempt failed
+                surv = fanproto.dead_survivors(tracer)
+                if surv:
+                    probs.append(("C06.no_pending_task_of_dead_attempt", {"survivors": surv[:4], "steps_with_survivors": len(surv)}))
                 try:
                     ab = fanproto.Abstraction(tracer, scn.machine).run()
                 except fanproto.Unsupported as e:
